@@ -7,7 +7,7 @@ ASSUMPTIONS = ["encoding/json is modelled by the renderers of Model/Json.v (ASCI
 
 
 def hostile_text(rng):
-    pool = ['a', 'b', '"', '\\', '\n', '\t', '\r', '\x00', '\x01', '\x1f', '\x7f', '<', '>', '&', "'", '/', ' ', 'é', 'ü', '€', ' ', '😀', '1']
+    pool = ['a', 'b', '"', '\\', '\n', '\t', '\r', '\x00', '\x01', '\x1f', '\x7f', '<', '>', '&', "'", '/', ' ', 'é', 'ü', '€', ' ', '😀', '1', '\ufffd', '\u2028', '\u00a0']
     s = "".join(rng.choice(pool) for _ in range(rng.choice([0, 1, 3, 6, 10])))
     b = s.encode("utf-8")
     if rng.random() < 0.15:
@@ -91,6 +91,8 @@ def run(ctx):
         texts = [hostile_text(rng) for _ in range(5)] + [""]
         if i < len(mixed):
             texts += ["ab1", "x ab1 cd22 ", "a b 1", "banana band"]
+        # the replacement character, line and paragraph separators, a byte order mark as TEXT: valid characters, rendered once and as themselves
+        texts += ["a\xef\xbf\xbdb", "\xef\xbf\xbd", "\xef\xbf\xbd\xef\xbf\xbd a\xe2\x80\xa8b", "\xef\xbb\xbfa b"]
         cases.append({"op": "json", "src_hex": vh.hexs(p), "texts_hex": [vh.hexs(t) for t in texts]})
         meta.append((p, texts))
     res = vh.run_cases(cases, shards=8)
